@@ -132,21 +132,13 @@ Theorem C03_guard_satisfiable :
 Proof. destruct guard_satisfiable as [A [_ [_ [B C]]]]. auto. Qed.
 Print Assumptions C03_guard_satisfiable.
 
-Theorem C03_sound_full_refuted :
-  ~ (forall S D, schema_wf S = true -> check_operation_document S D = [] -> forall r, rule_ok S D r = true).
-Proof. exact sound_full_refuted. Qed.
-Print Assumptions C03_sound_full_refuted.
 
 (** check_type_compatibility is the specification's AreTypesCompatible *)
 Theorem C03_type_compat_is_AreTypesCompatible : forall vt et, type_compat vt et = types_compatible vt et.
 Proof. exact type_compat_spec. Qed.
 Print Assumptions C03_type_compat_is_AreTypesCompatible.
 
-(** the current code accepts documents that violate an implemented rule (known findings) *)
-Theorem C03_unspread_fragment_refuted :
-  exists S D, check_operation_document S D = [] /\ rule_ok S D R_fields_exist = false.
-Proof. exists w_schema_0, w_doc_0. exact unspread_fragment_refuted. Qed.
-Print Assumptions C03_unspread_fragment_refuted.
+(** former blind spots of check, all repaired in /repo: the witnesses are now reported *)
 
 (** regression: the former same-interface blind spot (fixed by /repo commit 762f951) is now reported *)
 Theorem C03_same_interface_now_flagged :
@@ -179,12 +171,27 @@ Theorem C03_fields_can_merge_not_checked :
 Proof. exact fields_can_merge_not_checked. Qed.
 Print Assumptions C03_fields_can_merge_not_checked.
 
-Theorem C03_custom_scalar_variable_refuted :
-  exists S D, check_operation_document S D = [] /\ rule_ok S D R_vars_defined = false.
-Proof. exists w_schema_0, w_doc_3. exact custom_scalar_variable_refuted. Qed.
-Print Assumptions C03_custom_scalar_variable_refuted.
 
-Theorem C03_duplicate_argument_refuted :
-  exists S D, check_operation_document S D = [] /\ rule_ok S D R_literal_types = false.
-Proof. exists w_schema_0, w_doc_4. exact duplicate_argument_refuted. Qed.
-Print Assumptions C03_duplicate_argument_refuted.
+
+(** /repo commit c67e45e: a fragment that no operation spreads is checked on its own (document 25: argument errors, a
+    cycle and an unknown field inside unspread fragments are reported; uses of variables there are not) *)
+Theorem C03_unspread_fragment_now_flagged :
+  (exists p i, check_operation_document w_schema_0 w_doc_0 = [mkErr (FieldNotFound (s "nonexistent") (s "A")) p i])
+  /\ map (fun e => match e_msg e with
+                   | UnknownArgument _ => 1 | RecursingFragmentSpread _ => 2 | FieldNotFound _ _ => 3
+                   | TypeMismatch _ => 4 | UnknownVariable _ => 5 | _ => 0 end)
+         (check_operation_document w_schema_0 w_doc_25) = [1; 2; 3; 4].
+Proof. exact unspread_fragment_now_flagged. Qed.
+Print Assumptions C03_unspread_fragment_now_flagged.
+
+(** /repo commit 49e8e28 *)
+Theorem C03_custom_scalar_variable_now_flagged :
+  exists p i, check_operation_document w_schema_0 w_doc_3 = [mkErr (UnknownVariable (s "nope")) p i].
+Proof. exact custom_scalar_variable_now_flagged. Qed.
+Print Assumptions C03_custom_scalar_variable_now_flagged.
+
+(** /repo commit 7d19234 *)
+Theorem C03_duplicate_argument_now_flagged :
+  exists t p i, check_operation_document w_schema_0 w_doc_4 = [mkErr (TypeMismatch t) p i].
+Proof. exact duplicate_argument_now_flagged. Qed.
+Print Assumptions C03_duplicate_argument_now_flagged.
